@@ -176,3 +176,84 @@ def run(c):
             break
     else:
         c.holds("C13.R4", repo.loc(m, acl_loops[0]), "apply_json_fragment/acl-loop-complete", "no early exit from the per-ACL-item iteration")
+
+    r5(c)
+    r1b(c)
+
+
+def none_sentinel_sites(fn):
+    """lookups into a document with a None default (or dict.get without default) whose result is then tested for None-ness / truth: JSON null is taken for 'absent'"""
+    pv = Provenance(fn)
+    out = []
+    lookups = []
+    for x in calls_in(fn):
+        f = x.func
+        if isinstance(f, ast.Attribute) and f.attr in ("resolve", "get") and 1 <= len(x.args) <= 2:
+            if len(x.args) == 2 and isinstance(x.args[1], ast.Constant) and x.args[1].value is None:
+                lookups.append(x)
+            elif len(x.args) == 1 and f.attr == "get" and not x.keywords and not (isinstance(f.value, ast.Name) and f.value.id in ("pointer", "ptr")):
+                lookups.append(x)
+        elif call_name(x).endswith("resolve_pointer") and len(x.args) == 3 and isinstance(x.args[2], ast.Constant) and x.args[2].value is None:
+            lookups.append(x)
+    if not lookups:
+        return out
+    for n in ast.walk(fn):
+        if isinstance(n, ast.Compare) and len(n.ops) == 1 and isinstance(n.ops[0], (ast.Is, ast.IsNot, ast.Eq, ast.NotEq)) \
+                and isinstance(n.comparators[0], ast.Constant) and n.comparators[0].value is None:
+            v = pv.resolve_alias(n.left)
+            if any(v is lk for lk in lookups) or (isinstance(n.left, ast.Name) and any(d.value is lk for d in pv.rd.defs(n.left) for lk in lookups)):
+                out.append((n, [lk for lk in lookups if v is lk or isinstance(n.left, ast.Name)][0]))
+    return out
+
+
+def r5(c):
+    import os
+    repo = c.repo
+    c.rule("C13.R5", "JSON null is a value: in annlib.jsontools the presence of a pointer in a document is never decided by looking it up with a None default (pointer.resolve(doc, "
+                     "None), resolve_pointer(doc, p, None), dict.get) and testing the result against None — a null stored exactly at an ACL pointer would count as absent (not "
+                     "removed / not set). Expected count 0; a positive fixture under /verif/fixtures proves the matcher alive")
+    m = repo.module(MOD)
+    fx = os.path.join(os.path.dirname(os.path.dirname(os.path.abspath(__file__))), "fixtures", "c13_none_sentinel.py")
+    tree = ast.parse(open(fx).read())
+    for n_ in ast.walk(tree):
+        for ch in ast.iter_child_nodes(n_):
+            ch._parent = n_
+    nfx = sum(len(none_sentinel_sites(f)) for f in tree.body if isinstance(f, ast.FunctionDef))
+    if nfx < 3:
+        raise AnchorError(f"C13.R5: positive fixture matched only {nfx} constructs (matcher dead)")
+    c.analysed["fixture_matches"] = nfx
+    n = 0
+    for q, d in m.defs.items():
+        if not isinstance(d, ast.FunctionDef):
+            continue
+        n += 1
+        c.count("functions")
+        sites = none_sentinel_sites(repo.func(MOD, q, canon=False))
+        for node, lk in sites:
+            c.violated("C13.R5", repo.loc(m, node), f"{q}/presence-by-None", f"`{norm(node)[:70]}` decides presence from `{norm(lk)[:50]}`: a document holding null at that pointer is treated as "
+                       "not having it, so filtering / applying a fragment drops or keeps the key contrary to the ACL", key_text="none-sentinel")
+        if not sites:
+            c.holds("C13.R5", repo.loc(m, d), f"{q}/presence-by-None", "no None-sentinel presence test", trivial=True)
+    c.floor("C13.R5", "jsontools functions", n, 6)
+
+
+def r1b(c):
+    repo = c.repo
+    c.rule("C13.R1b", "jsontools.make_patch returns the library's operations themselves: it builds no operation of its own whose value is read from the original documents "
+                      "(paths of later operations refer to the document as already changed by the earlier ones, so a value resolved against `old`/`new` is the wrong element)")
+    m = repo.module(MOD)
+    fn = repo.func(MOD, "make_patch", canon=False)
+    pv = Provenance(fn)
+    ps = [a.arg for a in fn.args.args]
+    own = [d for d in ast.walk(fn) if isinstance(d, ast.Dict) and any(isinstance(k, ast.Constant) and k.value == "op" for k in d.keys)]
+    bad = None
+    for d in own:
+        for k, v in zip(d.keys, d.values):
+            if isinstance(k, ast.Constant) and k.value == "value":
+                if any(pv.derives_from_param(v, p, through_calls=True) for p in ps):
+                    bad = (d, v)
+    if bad:
+        c.violated("C13.R1b", repo.loc(m, bad[0]), "make_patch/synthesised-operation", f"make_patch builds `{norm(bad[0])[:70]}` with a value read from the original document (`{norm(bad[1])[:40]}`): "
+                   "after earlier add/remove operations on the same array the index in `from` denotes another element, so applying the patch does not give `new`", key_text="stale-value")
+    else:
+        c.holds("C13.R1b", repo.loc(m, fn), "make_patch/synthesised-operation", "no operation built from the original documents" if not own else "synthesised operations carry no document value")
